@@ -492,6 +492,60 @@ def drbg_rules(chk):
     ])
 
 
+def aesctr_drbg_chunking(chk):
+    """AESCTR_DRBG: under one key the block counter never goes beyond 32768 (a forced re-key follows), and a chunk is at most 65280
+    bytes.  Decided by partial evaluation of one turn of the generate loop with the stored counter and the remaining length pinned to
+    boundary values: the length handed to the CTR run must be min(len, 65280, 16 * (32768 - cc)), the counter argument is cc;
+    and the re-key (br_aesctr_drbg_update) is called iff the counter returned by the run reaches 32768."""
+    from .. import oblig as _o, fold as _f, irf as _irf
+    R = 'aesctr-drbg-chunking'
+    src = 'src/rand/aesctr_drbg.c'
+    fn = 'br_aesctr_drbg_generate'
+    U = _o.funit(src)
+    if fn not in U.funcs:
+        raise AnalysisBroken('%s vanished' % fn)
+    F = U.func(fn)
+    L = _irf.Layouts(build.load_unit(src))
+    cc = L.field('br_aesctr_drbg_context', 'cc')
+    if cc is None:
+        raise AnalysisBroken('br_aesctr_drbg_context.cc vanished')
+    loads = U.field_loads(fn, 0, cc[0], cc[1])
+    runs = [i for i in F.insts.values() if i['op'] == 'call' and i.get('callee') is None and len(i['ops']) == 5]
+    phis = [F.insts[o['v']] for i, o in _o.dbg_values(F, 'len') if o['k'] == 'i' and F.insts[o['v']]['op'] == 'phi']
+    if len(runs) != 1 or not phis or not loads:
+        raise AnalysisBroken('%s: CTR run call / loop variable len / loads of cc not identified' % fn)
+    before = [l for l in loads if F.order[l['id']] < F.order[runs[0]['id']]]
+    after = [l for l in loads if F.order[l['id']] > F.order[runs[0]['id']]]
+    if not before or not after:
+        raise AnalysisBroken('%s: counter is not read before and after the CTR run' % fn)
+    n = 0
+    for ccv, lenv in ((32767, 17), (32767, 16), (0, 100000), (0, 65281), (32760, 200), (28688, 65280), (28689, 65280), (1, 15), (32704, 1025), (32704, 1024)):
+        want = min(lenv, 65280, 16 * (32768 - ccv))
+        hy = [dict(kind='pin', n=l['n'], value=ccv) for l in before] + [dict(kind='pin', n=phis[0]['n'], value=lenv)]
+        Fo = U.optimise(fn, hy, ())
+        ic = [c for c in _f._reach_insts(Fo) if c['op'] == 'call' and c.get('callee') is None and len(c['ops']) == 5]
+        n += 1
+        inst = '%s: counter %d, %d bytes wanted => CTR run over %d bytes from counter %d' % (fn, ccv, lenv, want, ccv)
+        got = [(c['ops'][2].get('v') if c['ops'][2]['k'] == 'c' else None, c['ops'][4].get('v') if c['ops'][4]['k'] == 'c' else None) for c in ic]
+        if got == [(ccv, want)]:
+            chk.ok(R, inst, F.where(runs[0]))
+        else:
+            used = ccv + ((got[0][1] or 0) + 15) // 16 if got and got[0][1] is not None else None
+            chk.violation(R, inst, F.where(runs[0]), 'the run is over (counter, length) = %s%s' % (got, '' if used is None or used <= 32768 else
+                          ': the counter reaches %d under the same key' % used), key='%s %d %d' % (R, ccv, lenv))
+    for ccv, wantcall in ((32768, True), (32767, False), (32769, True)):
+        hy = [dict(kind='pin', n=l['n'], value=ccv) for l in after]
+        Fo = U.optimise(fn, hy, ('br_aesctr_drbg_update',))
+        has = any(c['op'] == 'call' and c.get('callee') == 'br_aesctr_drbg_update' for c in _f._reach_insts(Fo))
+        n += 1
+        inst = '%s: counter %d after the run => %s' % (fn, ccv, 're-key' if wantcall else 'no re-key')
+        if has == wantcall:
+            chk.ok(R, inst, F.where(after[0]))
+        else:
+            chk.violation(R, inst, F.where(after[0]), 'br_aesctr_drbg_update is %s' % ('called' if has else 'not called'), key='%s rekey %d' % (R, ccv))
+    chk.floor('aesctr_drbg cases', n, 13)
+
+
 def run(tier):
     chk = report.Check('C13', tier,
                        'Constant tables and class descriptors of the hash functions compared with values generated from the standards '
@@ -636,6 +690,7 @@ def run(tier):
     md_padding(chk)
     md_update(chk)
     drbg_rules(chk)
+    aesctr_drbg_chunking(chk)
     chk.floor('tables', sum(1 for o in chk.obls if o['rule'] == 'hash-constants'), 15)
     from .. import lints
     lints.length_is_boolean(chk, ['src/hash/', 'src/mac/', 'src/kdf/', 'src/rand/'])
